@@ -178,6 +178,33 @@ def run(check, repo: Repo) -> None:
         # the target variable must not be rebound after the test
         reach = cfg.reachable_from(T)
         late = [s for s in ea.target_stores if s in reach and s != T]
+
+        # a late re-normalisation that an identical, dominating one has already made a no-op (`if not p.endswith(X): p += X` twice) tests and writes the same path
+        def _conj(n_):
+            out = set()
+            for t_, pol in cfg.guards_of(n_):
+                parts = t_.values if (pol and isinstance(t_, ast.BoolOp) and isinstance(t_.op, ast.And)) else [t_]
+                for p_ in parts:
+                    out.add((unparse(p_), bool(pol)))
+            return out
+        early = [s for s in ea.target_stores if s not in reach and cfg.dominates(s, T) is False and s != T]
+        early = [s for s in ea.target_stores if s != T and s not in late]
+
+        def _idempotent(ls):
+            lst, lg = cfg.nodes[ls].stmt, _conj(ls)
+            suffix_guard = {g for g in lg if g[1] and g[0].startswith(f"not {target}.endswith(")}
+            if not suffix_guard or not isinstance(lst, ast.AugAssign) or not isinstance(lst.value, ast.Constant):
+                return False
+            if unparse(ast.parse(next(iter(suffix_guard))[0][4:], mode="eval").body.args[0]) != unparse(lst.value):
+                return False
+            for es in early:
+                est_ = cfg.nodes[es].stmt
+                if unparse(est_) == unparse(lst) and _conj(es) <= lg and suffix_guard <= _conj(es) and T in cfg.reachable_from(es):
+                    # every path into the late site satisfies the early guard's other conjuncts, so the early append ran whenever it was needed
+                    other = {n_.id for n_ in cfg.nodes if n_.kind == "stmt" and n_.id not in (es, ls) and n_.id in ea.target_stores}
+                    return not (other & cfg.reachable_from(es))
+            return False
+        late = [s for s in late if not _idempotent(s)]
         check.decide(not late, "C08-R1", f"save: '{target}' is not rebound after the existence test",
                      "", mod.line(cfg.nodes[T].stmt),
                      fail_detail=f"'{target}' is reassigned at line(s) {[cfg.nodes[s].lineno for s in late]} after "
